@@ -73,6 +73,7 @@ class ThreadSched:
         on_switch: Optional[Callable[[int, int, str, str], None]] = None,
         max_steps: int = 3_000_000,
         p_quantum: float = 0.6,
+        focus: Optional[str] = None,
     ) -> None:
         self.choose = choose
         self.trace_dir = os.path.join(os.path.realpath(trace_dir), "")
@@ -89,6 +90,10 @@ class ThreadSched:
         self.on_switch = on_switch
         self.max_steps = max_steps
         self.p_quantum = p_quantum
+        # swarm-style hot spot: on entering a function of a file whose path contains *focus* the scheduler may cut
+        # the running quantum down to 1-3 lines, so that pre-emptions land inside the first statements of such calls
+        self.focus = focus
+        self.focus_cuts = 0
         self.failed: Optional[str] = None
         self._file_cache: Dict[str, bool] = {}
 
@@ -110,6 +115,11 @@ class ThreadSched:
 
     def _trace(self, frame: Any, event: str, arg: Any) -> Any:
         if event == "call" and self._traced(frame.f_code.co_filename):
+            if self.focus and self.quantum > 3 and self.current is not None and self.focus in frame.f_code.co_filename:
+                cut = self.choose(4, "focus", 0.5)
+                if cut:
+                    self.quantum = cut
+                    self.focus_cuts += 1
             return self._local
         return None
 
